@@ -1996,6 +1996,7 @@ func comparatorTotal(p *Program, info *types.Info, sliceArg ast.Expr, fl *ast.Fu
 	// what a helper of the module that the comparator calls reads counts as read
 	// by the comparator (one level)
 	var bodies []ast.Node
+	var helperFns []*ssa.Function
 	bodyInfo := map[ast.Node]*types.Info{body: info}
 	ast.Inspect(body, func(n ast.Node) bool {
 		if ce, ok := n.(*ast.CallExpr); ok {
@@ -2004,6 +2005,9 @@ func comparatorTotal(p *Program, info *types.Info, sliceArg ast.Expr, fl *ast.Fu
 					bodies = append(bodies, fd.Body)
 					if pk := p.ByPath[fobj.Pkg().Path()]; pk != nil {
 						bodyInfo[fd.Body] = pk.TypesInfo
+					}
+					if sf := p.SSA.FuncValue(fobj); sf != nil {
+						helperFns = append(helperFns, sf)
 					}
 				}
 			}
@@ -2091,6 +2095,39 @@ func comparatorTotal(p *Program, info *types.Info, sliceArg ast.Expr, fl *ast.Fu
 	}
 	if !total {
 		return "sorted-not-total", fmt.Sprintf("elements of type %s are ordered by %v; a total order needs %v", typeStr(elem), rl, alts)
+	}
+	// what is read must also be what is compared: in a helper that turns an
+	// element into the text the comparator orders by, the value accessors'
+	// results reach what the helper returns (a text that is computed and then
+	// left out of the result orders nothing)
+	if typeStr(elem) == "reflect.Value" {
+		for _, hf := range helperFns {
+			rs := sigResults(hf)
+			if len(rs) != 1 || len(hf.Blocks) == 0 {
+				continue
+			}
+			for _, acc := range []string{"String", "Int", "Uint", "Float", "Bool"} {
+				if !reads[acc] {
+					continue
+				}
+				n, flows := 0, false
+				for _, b := range hf.Blocks {
+					for _, ins := range b.Instrs {
+						c, ok := ins.(*ssa.Call)
+						if !ok || c.Call.StaticCallee() == nil || c.Call.StaticCallee().Name() != acc || !isStdNamed(sigRecvType(c.Call.StaticCallee()), "reflect", "Value") {
+							continue
+						}
+						n++
+						if flowsToReturn(c, map[ssa.Value]bool{}, 0) {
+							flows = true
+						}
+					}
+				}
+				if n > 0 && !flows {
+					return "sorted-not-total", fmt.Sprintf("%s reads the key's value with %s() but what it reads does not reach the text it returns: the keys are ordered by less than their value (by their type alone, say), and keys that agree on that stay in map-iteration order", hf.Name(), acc)
+				}
+			}
+		}
 	}
 	// the entries of a hash are in the order of their keys' printed forms (the
 	// documented order of iteration, keys() and the printed hash): the string
@@ -2677,4 +2714,49 @@ func calleeMethodName(cc *ssa.CallCommon) string {
 		return f.Name()
 	}
 	return ""
+}
+
+// flowsToReturn: the value reaches an operand of a return of its function,
+// through conversions, concatenations, formatting calls, merges and local
+// variables.
+func flowsToReturn(v ssa.Value, seen map[ssa.Value]bool, depth int) bool {
+	if v == nil || seen[v] || depth > 12 || v.Referrers() == nil {
+		return false
+	}
+	seen[v] = true
+	for _, ref := range *v.Referrers() {
+		switch x := ref.(type) {
+		case *ssa.Return:
+			return true
+		case *ssa.Store:
+			if x.Val != v {
+				continue
+			}
+			// a local variable, or a slot of an argument list
+			switch a := x.Addr.(type) {
+			case *ssa.Alloc:
+				for _, r2 := range *a.Referrers() {
+					if ld, ok := r2.(*ssa.UnOp); ok && ld.Op == token.MUL && flowsToReturn(ld, seen, depth+1) {
+						return true
+					}
+				}
+			case *ssa.IndexAddr:
+				if al, ok := a.X.(*ssa.Alloc); ok && al.Referrers() != nil {
+					for _, r2 := range *al.Referrers() {
+						if sl, ok := r2.(*ssa.Slice); ok && flowsToReturn(sl, seen, depth+1) {
+							return true
+						}
+					}
+				}
+			}
+		case ssa.Value:
+			switch x.(type) {
+			case *ssa.BinOp, *ssa.Convert, *ssa.ChangeType, *ssa.MakeInterface, *ssa.Phi, *ssa.Call, *ssa.Slice, *ssa.Extract, *ssa.UnOp:
+				if flowsToReturn(x, seen, depth+1) {
+					return true
+				}
+			}
+		}
+	}
+	return false
 }
